@@ -49,6 +49,7 @@ class AioRunner:
         self.cells = []
         self.del_events = []   # (instant, acting job, deleted job) for deletions done by coroutines
         self.probes = []
+        self.prints = []
 
     # -------------------------------------------------------------- coroutines
     def make_coro(self, cell):
@@ -85,6 +86,16 @@ class AioRunner:
                             runner.del_events.append((CLOCK.instant, key, kk))
                     elif a[0] == "as":
                         runner.do_sched(a[1], [runner.dflt])
+                    elif a[0] == "st":
+                        # print the scheduler from inside a coroutine (pure observation: no await, not part of the model)
+                        try:
+                            text = str(runner.sched)
+                            lines_ = text.split("\n")
+                            sep = max((i for i, ln in enumerate(lines_) if ln.strip() and set(ln.strip()) <= set("- ")), default=len(lines_) - 1)
+                            runner.prints.append((CLOCK.instant, key, int(text.split("#jobs=")[1].split("\n")[0]),
+                                                  sum(1 for ln in lines_[sep + 1:] if ln.strip()), len(runner.sched.jobs)))
+                        except Exception as e:  # noqa: BLE001
+                            runner.prints.append((CLOCK.instant, key, -1, -1, repr(e)[:120]))
             except asyncio.CancelledError:
                 runner.events.append((CLOCK.instant, key, "C", due))
                 raise
@@ -272,6 +283,8 @@ class AioRunner:
             obs["arg_failures"] = list(self.arg_failures)
             obs["probes"] = list(self.probes)
             self.probes = []
+            obs["prints"] = list(self.prints)
+            self.prints = []
             # a coroutine deleted ANOTHER job at the very instant that job's coroutine started: which of the
             # two ready tasks runs first is the event loop's choice, not the scheduler's - not comparable
             starts = {(t, kk) for (t, kk, kind, _d) in self.events if kind == "S"}
@@ -338,7 +351,7 @@ def s_act(a):
 def s_runs(runs):
     parts = [str(len(runs))]
     for r in runs:
-        acts = r.get("acts", [])
+        acts = [a for a in r.get("acts", []) if a[0] != "st"]     # printing is an observation, not an action of the model
         parts.append(" ".join([str(len(acts))] + [s_act(a) for a in acts] + ["1" if r.get("raises") else "0"]))
     return " ".join(parts)
 
